@@ -188,7 +188,11 @@ def gen_case(r, big=False, natural=False):
             ops.append("T%d,%d" % (k, arg))
             s.tick(arg)
         elif kind == "P":
-            ops.append("P%d,%d" % (k, arg))
+            if infl and r.random() < 0.3:
+                # the peer's own message id happens to equal the id of one of our in-flight CONs
+                ops.append("P%d,%d,%d" % (k, arg, r.choice(infl)))
+            else:
+                ops.append("P%d,%d" % (k, arg))
             s.sep(arg)
         elif kind == "U":
             ops.append("U%d" % k)
@@ -199,7 +203,20 @@ def gen_case(r, big=False, natural=False):
         elif kind == "W":
             ops.append("W%d" % arg)
             # the simulator cannot tell which timers fire; its in-flight set becomes a guess
-    if not natural and r.random() < 0.5:
+    if not natural and r.random() < 0.25:
+        # probe: let every in-flight message time out until it is given up (each firing must
+        # retransmit or NACK; everything held must come out in the end)
+        for k, s in enumerate(ss):
+            if not s.est and s.open:
+                ops.append("U%d" % k)
+                s.up()
+            guard = 0
+            while s.sq and guard < 200:
+                guard += 1
+                mid = s.sq[0][1]
+                ops.append("T%d,%d" % (k, mid))
+                s.tick(mid)
+    elif not natural and r.random() < 0.6:
         # flush: acknowledge until nothing is in flight any more
         for k, s in enumerate(ss):
             if not s.est and s.open:
